@@ -23,7 +23,7 @@ def badCase (info : String) : Verdict := { status := "BADCASE", info := info }
 def Verdict.render (v : Verdict) : String :=
   v.status ++ " path=" ++ (if v.path.isEmpty then "-" else v.path) ++
   " feats=" ++ (if v.feats.isEmpty then "-" else ",".intercalate v.feats) ++
-  (if v.info.isEmpty then "" else " info=" ++ v.info)
+  (if v.info.isEmpty then "" else " info=" ++ (v.info.replace "\n" " "))
 
 /-- first failing check wins; checks are (condition that must hold, verdict if it does not) -/
 def firstFailure (checks : List (Bool × Verdict)) (good : Verdict) : Verdict :=
